@@ -191,7 +191,7 @@ def run_case(case):
                 e = r["events"][0]
                 sample = {"rpc": call["rpc"], "binding": list(b), "verb": e["verb"], "path": e["path"], "query": e["query"][:300],
                           "body": rdm.unb64(e["body"]).decode("utf-8", "replace")[:300]}
-    return {"verdict": "violated" if viol else "held", "violations": viol[:20], "evaluations": counters.get("calls_judged", 0),
+    return {"verdict": "violated" if viol else "held", "violations": pipeline.diverse(viol, 40), "evaluations": counters.get("calls_judged", 0),
             "nontrivial_sigs": sorted(sigs), "counters": counters, "sample": sample or {}}
 
 
